@@ -1043,8 +1043,12 @@ def parse_primary_expr(lexer, unary_minus=False):
         )
         result = invoke(lexer, result)
     elif token.type == "decimal":
+        decimalvalue = float(token.value)
+        if decimalvalue in (float("inf"), float("-inf")):
+            # more digits than a decimal can hold
+            raise CklSyntaxError("Invalid decimal literal", token.pos)
         result = NodeLiteral(
-            ValueDecimal(float(token.value) * (-1 if unary_minus else 1)),
+            ValueDecimal(decimalvalue * (-1 if unary_minus else 1)),
             token.pos,
         )
         result = invoke(lexer, result)
